@@ -2,7 +2,7 @@
    Property theorems only; every proof is [exact <lemma>]. *)
 From Coq Require Import List Bool NArith.
 From Akd Require Import ElemSet ElemSetFacts ContainsPrefix InsertRefine ContainsPrefixSorted ContainsPrefixFrom BitsLabel.
-From Akd Require Import Bits NodeLabel NodeLabelFacts.
+From Akd Require Import Bits NodeLabel NodeLabelFacts LabelOrder.
 Import ListNotations.
 Open Scope N_scope.
 
@@ -41,6 +41,16 @@ Theorem C17_ordering : forall a b, WF a -> WF b -> canonical a = true -> canonic
   nl_cmp a b = shortlex_cmp (bits_of a) (bits_of b).
 Proof. exact nl_cmp_spec. Qed.
 Print Assumptions C17_ordering.
+
+(* `impl Ord for NodeLabel` is a total order consistent with equality, for ALL labels (canonical or
+   not): Equal exactly on equal labels, antisymmetric, transitive - what sorting and the binary
+   searches above rely on *)
+Theorem C17_ordering_is_total_order :
+  (forall a b, nl_cmp a b = Eq <-> a = b) /\
+  (forall a b, nl_cmp b a = CompOpp (nl_cmp a b)) /\
+  (forall a b c, nl_cmp a b = Lt -> nl_cmp b c = Lt -> nl_cmp a c = Lt).
+Proof. exact (conj nl_cmp_eq_iff (conj nl_cmp_opp nl_cmp_lt_trans)). Qed.
+Print Assumptions C17_ordering_is_total_order.
 
 (* element sets: on a sorted set of equal-length labels the binary-search partition and the
    first/last common prefix are the filter-based / fold-based operations of the unsorted form *)
